@@ -21,6 +21,12 @@ open Proto Ex
       `dp:<k>`                                the destination is `T/p/dst`: `p` does not exist (k=1; the sandbox's `dst/…`
                                               items are dropped), `p -> q` a link to a real directory holding `dst/…`
                                               (2), `p -> m -> q` (3), `p -> /tmp/@T@/q` (4)
+      `cw:<dir>` `dd:<dst>`                   the destination as the caller spells it (`dd`, any string: relative, with
+                                              dots and repeated separators, absolute; `@T@` is the sandbox's name) and the
+                                              working directory of the process (`cw`, relative to the sandbox): the root
+                                              is `Ex.absPath` of the two (area dstform)
+      `cf:<rel>`                              close fault: `close` of the file extracted at `dst/<rel>` fails (area
+                                              closefault: the payload is complete, the entry still is an error)
       `r:2`                                   the archive is extracted twice into the same destination (`ok,err` …)
       `w:<n>`                                 write fault: during the extraction no file can grow beyond n bytes (the
                                               write of a longer payload stops after n bytes with an error)
@@ -179,7 +185,15 @@ def step (_ : Unit) (line : String) : Unit × String :=
         let dl := dlItem != ""
         let dpItem := (items.filter (·.startsWith "dp:")).getLast?.getD ""
         let dp : Nat := ((dpItem.drop 3).toString.toNat?).getD 0
-        let items := items.filter (fun w => !w.startsWith "v:" && !w.startsWith "r:" && !w.startsWith "dl:" && !w.startsWith "dp:")
+        let argOf (pre : String) : Option (List Nat) :=
+          match (items.filter (·.startsWith pre)).getLast? with
+          | some w => hexBytes? (w.drop pre.length).toString
+          | none => none
+        let dd := argOf "dd:"
+        let cw := (argOf "cw:").getD []
+        let cf := argOf "cf:"
+        let items := items.filter (fun w => !w.startsWith "v:" && !w.startsWith "r:" && !w.startsWith "dl:" && !w.startsWith "dp:"
+          && !w.startsWith "dd:" && !w.startsWith "cw:" && !w.startsWith "cf:")
         if !["v:", "v:x", "v:a", "v:am", "v:missing", "v:cut"].contains via then "bad-op" else
         let rec go (fs : FS) (es : List Entry) (lim : Option Nat) : List String → Option (FS × List Entry × Option Nat)
           | [] => some (fs, es.reverse, lim)
@@ -219,6 +233,15 @@ def step (_ : Unit) (line : String) : Unit × String :=
               else fs.put pP (.symlink (bytes "q"))
             else fs
           let dstRoot := if dp ≥ 1 then pP ++ [bytes "dst"] else dstRoot
+          -- the destination as spelled, from the working directory T/<cw>: `filepath.Abs`
+          let dstRoot := match dd with
+            | some d => absPath (sandbox ++ relPath cw) d
+            | none => dstRoot
+          -- close fault: every regular-file entry that is written to that path reports an error after its payload
+          let es := match cf with
+            | some c => es.map fun e =>
+                if e.kind == .reg && cleanJoin dstRoot e.name == dstRoot ++ relPath c then { e with short := true } else e
+            | none => es
           let es := match lim with
             | none => es
             | some k => es.map fun e =>
